@@ -379,9 +379,8 @@ func (u *epUp) ExchangeContext(ctx context.Context, m []byte) (*[]byte, error) {
 	} else {
 		rep.Count("payload_intact_at_release", 1)
 	}
-	for i := range m {
-		m[i] = 0xEE
-	}
+	// (the payload is only read: an Upstream "MUST NOT keep or modify m", and the statement
+	// does not require the payloads of the c exchanges to be private copies)
 	if first && call.d.Ctx == epCtxMid {
 		call.cancel()
 	}
